@@ -80,7 +80,7 @@ class SafeLearner(Learner):
         no_len         = lambda item: not hasattr(item,'__len__')
         is_all_dicts   = all(isinstance(p,dict) for p in pred)
         is_dict_col    = isinstance(pred,dict)
-        is_dict_col_kw = is_all_dicts and pred[0].keys() != pred[-1].keys() and len(pred)==2
+        is_dict_col_kw = is_all_dicts and pred[0].keys() != pred[-1].keys() and len(pred)==2 and SafeLearner.is_hint(pred[0])
         is_dict_row    = is_all_dicts and pred[0].keys() == pred[-1].keys()
 
         if is_dict_col or is_dict_col_kw : return 'col'
@@ -195,6 +195,11 @@ class SafeLearner(Learner):
             return False
 
     @staticmethod
+    def is_hint(item):
+        #an explicit format dict as opposed to a sparse action or kwargs
+        return isinstance(item,dict) and len(item)==1 and next(iter(item)) in ['pmf','action','action_prob']
+
+    @staticmethod
     def batch_size(args):
         for arg in args:
             if is_batch(arg):
@@ -206,7 +211,7 @@ class SafeLearner(Learner):
             return try_else(lambda: len(obj), 0)
         if out is None:
             raise CobaException("The given prediction was none and did not match the batch_size.")
-        if all(isinstance(p,dict) for p in out) and out[0].keys() != out[-1].keys(): #pragma: no cover
+        if all(isinstance(p,dict) for p in out) and out[0].keys() != out[-1].keys() and SafeLearner.is_hint(out[0]): #pragma: no cover
             out = out[0]
         if isinstance(out,dict):
             is_valid = expected_len == len_or_0(next(iter(out.values())))
